@@ -288,11 +288,12 @@ fn recover_and_check_inner(store_dir: &Path, acks: &[Value], soft: &mut Vec<(Str
             }
             crate::fixture::Fx::open(copy, cdata, croot, rt.clone())
         };
-        let found_fx = mk(true);
         let truth_fx = mk(false);
-        for t in &threads {
-            let found = crate::c04::all_answers(&found_fx, t, true, 4);
-            let truth = crate::c04::all_answers(&truth_fx, t, true, 4);
+        for (t, replay_last) in threads.iter().flat_map(|t| [(t, true), (t, false)]) {
+            // every (thread, order) gets its own copy: an earlier query must not heal the caches
+            let found_fx = mk(true);
+            let found = crate::c04::all_answers_ordered(&found_fx, t, true, 4, replay_last);
+            let truth = crate::c04::truth_answers(&truth_fx, t, true, 4);
             for ((name, a), (_, b)) in found.iter().zip(truth.iter()) {
                 if a != b {
                     let q = name.split('(').next().unwrap_or(name);
@@ -305,13 +306,15 @@ fn recover_and_check_inner(store_dir: &Path, acks: &[Value], soft: &mut Vec<(Str
             }
         }
     }
-    if let Err(e) = store.ensure_default() {
-        return Err(("ensure_default_after_crash".into(), format!("ensure_default after restart fails: {e}")));
-    }
+    // the append is the restarted authority's FIRST operation on each thread (a replay first would
+    // rebuild the caches and hide what an append onto the recovered family does)
     for t in &threads {
         if let Err(e) = store.append_message(t, "u".into(), "o".into(), "after-crash".into()) {
             return Err(("append_after_crash".into(), format!("append after restart fails on {t}: {e}")));
         }
+    }
+    if let Err(e) = store.ensure_default() {
+        return Err(("ensure_default_after_crash".into(), format!("ensure_default after restart fails: {e}")));
     }
     drop(store);
     // (7) the same differential once more, after the restarted authority has appended: an append
@@ -330,11 +333,12 @@ fn recover_and_check_inner(store_dir: &Path, acks: &[Value], soft: &mut Vec<(Str
             }
             crate::fixture::Fx::open(copy, cdata, croot, rt.clone())
         };
-        let found_fx = mk(true);
         let truth_fx = mk(false);
-        for t in &threads {
-            let found = crate::c04::all_answers(&found_fx, t, true, 4);
-            let truth = crate::c04::all_answers(&truth_fx, t, true, 4);
+        for (t, replay_last) in threads.iter().flat_map(|t| [(t, true), (t, false)]) {
+            // every (thread, order) gets its own copy: an earlier query must not heal the caches
+            let found_fx = mk(true);
+            let found = crate::c04::all_answers_ordered(&found_fx, t, true, 4, replay_last);
+            let truth = crate::c04::truth_answers(&truth_fx, t, true, 4);
             for ((name, a), (_, b)) in found.iter().zip(truth.iter()) {
                 if a != b {
                     let q = name.split('(').next().unwrap_or(name);
